@@ -566,6 +566,23 @@ Ltac with_q lat :=
 
 Ltac nzs := repeat split; try (apply Rgt_not_eq; assumption); try apply PI_neq0; try lra.
 
+Lemma gen_Rn (lat : R) :
+  nav_Re lat * (9933056200098587 / 10000000000000000) /
+    (1 - 66943799901413 / 10000000000000000 * (sin (lat * (PI / 180)) * sin (lat * (PI / 180)))) = nav_Rn lat.
+Proof.
+  unfold nav_Rn, nav_Re, R_meridian, R_transverse, W2, A_, E2_, d2r.
+  pose proof (W_pos' (lat * (PI / 180))) as HW. pose proof (sqrtW_pos (lat * (PI / 180))) as HQ.
+  set (ss := sin (lat * (PI / 180)) * sin (lat * (PI / 180))) in *.
+  field. repeat split; try lra; apply Rgt_not_eq; assumption.
+Qed.
+
+(* fold the generated sub-expressions back into the specification's radii and normal gravity (checked by conversion) *)
+Ltac fold_geo lat :=
+  repeat match goal with |- context [6378137 / sqrt ?w] => change (6378137 / sqrt w) with (nav_Re lat) end;
+  rewrite ?(gen_Rn lat);
+  repeat match goal with |- context [?a * (1 + ?b * ?ss) / sqrt ?w] =>
+    change (a * (1 + b * ss) / sqrt w) with (g0 (lat * d2r)) end.
+
 Ltac model_tac j :=
   intros s roll pitch heading x;
   destruct s as [lat lon alt VN VE VD C00 C01 C02 C10 C11 C12 C20 C21 C22];
@@ -574,7 +591,12 @@ Ltac model_tac j :=
          sm0, sm1, sm2, sm3, sm4, sm5, sm6, sm7, sm8;
   cbn [e0 e1 e2 e3 e4 e5 e6 e7 e8 s_lat s_lon s_alt s_VN s_VE s_VD];
   unfold sysmat3d_F00, sysmat3d_F01, sysmat3d_F02, sysmat3d_F03, sysmat3d_F04, sysmat3d_F05, sysmat3d_F06, sysmat3d_F07, sysmat3d_F08, sysmat3d_F10, sysmat3d_F11, sysmat3d_F12, sysmat3d_F13, sysmat3d_F14, sysmat3d_F15, sysmat3d_F16, sysmat3d_F17, sysmat3d_F18, sysmat3d_F20, sysmat3d_F21, sysmat3d_F22, sysmat3d_F23, sysmat3d_F24, sysmat3d_F25, sysmat3d_F26, sysmat3d_F27, sysmat3d_F28, sysmat3d_F30, sysmat3d_F31, sysmat3d_F32, sysmat3d_F33, sysmat3d_F34, sysmat3d_F35, sysmat3d_F36, sysmat3d_F37, sysmat3d_F38, sysmat3d_F40, sysmat3d_F41, sysmat3d_F42, sysmat3d_F43, sysmat3d_F44, sysmat3d_F45, sysmat3d_F46, sysmat3d_F47, sysmat3d_F48, sysmat3d_F50, sysmat3d_F51, sysmat3d_F52, sysmat3d_F53, sysmat3d_F54, sysmat3d_F55, sysmat3d_F56, sysmat3d_F57, sysmat3d_F58, sysmat3d_F60, sysmat3d_F61, sysmat3d_F62, sysmat3d_F63, sysmat3d_F64, sysmat3d_F65, sysmat3d_F66, sysmat3d_F67, sysmat3d_F68, sysmat3d_F70, sysmat3d_F71, sysmat3d_F72, sysmat3d_F73, sysmat3d_F74, sysmat3d_F75, sysmat3d_F76, sysmat3d_F77, sysmat3d_F78, sysmat3d_F80, sysmat3d_F81, sysmat3d_F82, sysmat3d_F83, sysmat3d_F84, sysmat3d_F85, sysmat3d_F86, sysmat3d_F87, sysmat3d_F88;
-  repeat autounfold with sysmat3d_db; to_prims; with_q lat; field; nzs.
+  repeat autounfold with sysmat3d_db; fold_geo lat;
+  unfold corN, corE, corD, omN, omE, omD, OmN, OmD, grav, rn, re, sphi, cphi, tphi;
+  cbn [s_lat s_lon s_alt s_VN s_VE s_VD];
+  unfold nav_cor_N, nav_cor_E, nav_cor_D, nav_om_N, nav_om_E, nav_om_D,
+    nav_rho_N, nav_rho_E, nav_rho_D, nav_Omega_N, nav_Omega_E, nav_Omega_D;
+  rewrite ?ng_split; unfold RATE_, A_, d2r, Rdiv; ring.
 
 Lemma model0_spec : forall s roll pitch heading x, model0 s roll pitch heading x = sm0 s x.
 Proof. model_tac 0. Qed.
